@@ -29,13 +29,8 @@ def families(tier):
             if cn != 'array':
                 f.add(P + 'set/n=%d,symbolic' % n, 'h_set', ci, n, -1, 0, 0)
                 f.add(P + 'set_pair/n=%d,symbolic' % n, 'h_set', ci, n, -1, 0, 1)
-                if n != 1 or not q:
-                    g.add(P + 'remove/n=%d,symbolic' % n, 'h_remove', ci, n, -1, 0)
-                else:
-                    # (n == 1 with a symbolic key needs ~200 s / 6 GB: thorough only; quick uses concrete keys)
-                    for mask in (1, 2, 4):
-                        for x in (0, 1, 3, 5, 6):
-                            f.add(P + 'remove/keys=%d,x=%d' % (mask, x), 'h_remove', ci, 0, mask, x)
+                # (removing the only pair of a linked map yields a 30 M-clause formula: ~40-200 s, 6 GB; larger-cap family)
+                g.add(P + 'remove/n=%d,symbolic' % n, 'h_remove', ci, n, -1, 0)
         if cn == 'array':
             for mask in range(8):
                 for x in range(0, 7):
